@@ -23,6 +23,7 @@ func init() {
 		ruleWildcardOpt(c, r)
 		ruleReflectString(c, r, c.anchored("C02"))
 		ruleRenderSkip(c, r)
+		ruleEmptyLeafList(c, r)
 		ruleIntBase(c, r)
 		ruleLossyNum(c, r, c.funcsInScope(func(s string) bool { return s == "ytypes/leaf.go" || s == "ytypes/leaf_list.go" || s == "ytypes/util_types.go" || s == "ygot/render.go" }, libPkgs), 2)
 		ruleFmtConst(c, r, c.funcsInScope(func(s string) bool { return s == "ygot/render.go" }, libPkgs), 10)
@@ -86,6 +87,7 @@ func init() {
 			"apply-back equality Diff(a,b) applied to a gives b; atomic ordering; C08's injectivity of PathToString is imported, not re-decided here.")
 		ruleDiffGuards(c, r)
 		ruleDiffSkip(c, r)
+		ruleEmptyLeafList(c, r)
 		ruleAppendAlias(c, r, c.anchored("C03"), 40)
 	})
 }
